@@ -122,3 +122,19 @@ package trie2
 //@   modifies *
 //@   assigns calls_traceDelete, arg_traceDelete_key
 //@   callsite onDelete@*: a_value_node_under_its_own_path: istype(n, *trienode.ValueNode) ==> $1 == prefix
+
+// ---- range proofs: is there anything to the right of the key? (C10) ----------------------------------
+// Where the key leaves the trie inside an edge, "the edge lies to the right of the key" is a
+// comparison of two bit strings of EQUAL length - the edge path padded with zeros to the length of the
+// remaining key (Cmp orders by length first, so an unpadded internal edge, always shorter than the
+// remaining key, would never compare greater and an empty range would be accepted although larger keys
+// exist). The padding is to exactly the key's length.
+//@ extern func github.com/NethermindEth/juno/core/trie2/trienode.(*BinaryNode).Right
+//@ extern func github.com/NethermindEth/juno/core/trie2/trienode.(*EdgeNode).PathMatches
+//@ func hasRightElement
+//@   props C10
+//@   arith bv
+//@   nosafe
+//@   assumecalleepre
+//@   modifies *
+//@   callsite Cmp@*: at_the_keys_length_or_beyond: $0 != nil && $1 == key && $0.len >= key.len
